@@ -246,6 +246,9 @@ fn first_char_strategy() -> impl Strategy<Value = Option<u16>> {
         7 => Just(Some(0xF020u16)),
         2 => prop_oneof![Just(0x21u16), Just(0x41), Just(0x100), Just(0xF000), Just(0xF021), Just(0xFFFF)].prop_map(Some),
         2 => (0x20u16..=0xFFFF).prop_map(Some),
+        // below 0x20 the formula `ch - 0x20 + usFirstCharIndex` is negative for small codes: those characters have no
+        // equivalent in the symbol encoding (documented in font.rs) and map to glyph 0 (after seeded miss C06-14)
+        1 => prop_oneof![Just(0u16), Just(1), Just(0x10), Just(0x1F)].prop_map(Some),
     ]
 }
 
@@ -522,7 +525,7 @@ fn domain_violation(c: &Case) -> Option<&'static str> {
             }
         }
     }
-    if c.first_char.map_or(false, |f| f < 0x20) || c.layout.len() > 79 || c.probes.len() > 23 {
+    if c.layout.len() > 79 || c.probes.len() > 23 {
         return Some("first_char / layout / probes");
     }
     None
